@@ -610,6 +610,49 @@ theorem lax_facts (ord : List String → List String) (hord : ∀ l x, x ∈ ord
     have h1 := (iht hr.1.2).val hr.1.1 v hwv hs.1
     have h2 := (ihr hr.2).flds hf vs' O hwr hs.2 hin.2
     simp [validate, hin.1, h1, h2, combineField]
+  | tupleVar t ih =>
+    intro hr
+    simp only [rt, Bool.and_eq_true, Bool.not_eq_true'] at hr
+    have F := ih hr.2
+    refine ⟨?_, by simp [isFieldsTy]⟩
+    intro _ v hw hs
+    cases v with
+    | tup l =>
+      simp only [wellTyped] at hw
+      simp only [jsonSafe] at hs
+      simp [validate, Mode.isLax, toJ, mapArr_toJ ord _ (wellTyped t) (F.val hr.1) l hw hs]
+    | _ => simp [wellTyped] at hw
+  | tuple e ih =>
+    intro hr
+    simp only [rt, Bool.and_eq_true, Bool.not_eq_true'] at hr
+    have F := ih hr.2
+    refine ⟨?_, by simp [isFieldsTy]⟩
+    intro _ v hw hs
+    cases v with
+    | tup l =>
+      simp only [wellTyped] at hw
+      simp only [jsonSafe] at hs
+      simp [validate, Mode.isLax, toJ, F.val hr.1 l hw hs]
+    | _ => simp [wellTyped] at hw
+  | tnil =>
+    intro _; refine ⟨?_, by simp [isFieldsTy]⟩
+    intro _ v hw _; cases v <;> simp [wellTyped] at hw; simp [validate, toJ]
+  | tcons t rest iht ihr =>
+    intro hr
+    simp only [rt, Bool.and_eq_true, Bool.not_eq_true'] at hr
+    refine ⟨?_, by simp [isFieldsTy]⟩
+    intro _ v hw hs
+    cases v with
+    | lcons a b =>
+      simp only [wellTyped, Bool.and_eq_true] at hw
+      simp only [jsonSafe, Bool.and_eq_true] at hs
+      have h1 := (iht hr.1.2).val hr.1.1.1 a hw.1 hs.1
+      have h2 := (ihr hr.2).val hr.1.1.2 b hw.2 hs.2
+      simp [validate, toJ, h1, h2]
+    | _ => simp [wellTyped] at hw
+  | opaqueTy w =>
+    intro _; refine ⟨?_, by simp [isFieldsTy]⟩
+    intro _ v hw _; cases v <;> simp [wellTyped] at hw
   | unsupported w => intro hr; simp [rt] at hr
 
 
@@ -821,6 +864,24 @@ theorem safe_of_schema : ∀ t, floatFree t → strKeysOnly t → ∀ v, wellTyp
     simp only [strKeysOnly, Bool.and_eq_true] at h2
     cases v <;> simp [wellTyped] at hw
     simp [jsonSafe, iht h1.1 h2.1 _ hw.1.2, ihr h1.2 h2.2 _ hw.2]
+  | tupleVar t ih =>
+    intro h1 h2 v hw
+    simp only [floatFree] at h1; simp only [strKeysOnly] at h2
+    cases v <;> simp [wellTyped] at hw
+    simp only [jsonSafe]
+    exact allList_safe _ (ih h1 h2) _ hw
+  | tuple e ih =>
+    intro h1 h2 v hw
+    simp only [floatFree] at h1; simp only [strKeysOnly] at h2
+    cases v <;> simp [wellTyped] at hw
+    simp only [jsonSafe]
+    exact ih h1 h2 _ hw
+  | tcons t rest iht ihr =>
+    intro h1 h2 v hw
+    simp only [floatFree, Bool.and_eq_true] at h1
+    simp only [strKeysOnly, Bool.and_eq_true] at h2
+    cases v <;> simp [wellTyped] at hw
+    simp [jsonSafe, iht h1.1 h2.1 _ hw.1, ihr h1.2 h2.2 _ hw.2]
   | _ => intro _ _ v hw; cases v <;> simp_all [wellTyped, jsonSafe]
 
 
